@@ -33,6 +33,12 @@ def streams(ctx):
             ip = rng.chance(1, 2)
             pick = (lambda: rng.choice(lat)) if eco not in ("go", "gha") else (lambda: (gen(rng) if rng.chance(1, 3) else "v" + rng.choice(lat)))
             vs = [pick() for _ in range(rng.below(6))]
+            if eco not in ("go", "gha") and rng.chance(1, 3):
+                # the cache holds versions AROUND the operand of the first spec (its floor, its neighbours, the same versions with
+                # build metadata or as prereleases): where a verdict changes
+                near = gens.around(specs[0])
+                if near:
+                    vs = rng.shuffle(near)[: 1 + rng.below(5)] + vs[:2]
             if rng.chance(1, 3) and eco in ("go", "gha"):
                 vs.append(specs[0])
             tags = []
@@ -91,6 +97,8 @@ def streams(ctx):
                             return None
                     # deviations of the range semantics themselves are C02's findings, not C01's
                     fr = frag_of(eco, resolved)
+                    if fr == "F":
+                        return None      # outside the fragment the reading of the spec itself is judged by C02 (finding class or violation)
                     cands = rows + ([vlib.unhx(latest[1:])] if latest != "-" else [])
                     for v in cands + [""]:
                         if finding_class(eco, resolved, v, "T", "F", fr):
